@@ -20,7 +20,7 @@ func init() { register(&Spec{ID: "C06", Targets: []load.Target{load.Linux}, Run:
 
 func runC06(c *core.Ctx) {
 	runFixtures(c, "drop", "valid")
-	c.Explain("Structural clauses of C06 decided from source: (R06.1) every strings.HasPrefix test of a name against a stored path (mount keys in mount.mountPoint, record keys in the in-memory store's listing) uses a prefix ending in \"/\" — 'a' never captures 'ab'; (R06.2) in the mount-table scan, every update of the best-so-far pair on the prefix path is guarded by a strict length comparison between the candidate and the current best, so the result does not depend on iteration order, and the exact-match path stores the candidate itself; (R06.3) every MountFS branch of the helpers (and mount.Rename per name) delegates with the file system and sub-path of ONE Mount call and translates the error with (err, name, subPath) of that same call — with the suite's only mount name == subPath, so a mix-up is invisible to the tests; (R06.4) the mount-table insertion is dominated by ValidPath, not-root, a successful open+Stat of the mount point — addressed through the mount point's own route, Mount(p) or Mount(path.Dir(p)) joined with path.Base(p) — and IsDir, and is an atomic LoadOrStore whose 'loaded' result is answered with ErrExist; (R06.5) cross-mount rename: after the destination was created, every failing return removes the destination first, and the source is removed only after the copy succeeded and the destination's Close returned nil; (R06.6) no call of a Mount(name) route resolution in the module passes a string that can never satisfy ValidPath (the directory half of path.Split, a concatenation ending in '/', an invalid constant): such a call always falls on the invalid-name route — the root file system — whatever is mounted; (R06.7) every helper that probes an optional capability interface of its file system also probes MountFS (exempt with reasons: Sub, Symlink, helpers that fall back to fs.Open) — a missing branch makes the operation fail with ErrNotImplemented through a Sub view or another MountFS although the routed file system supports it. (R06.8) the root file system is read only inside the route resolution; (R06.9) the cross-mount copy creates or truncates its destination. NOT claimed: that an operation's effect equals the direct call on the routed file system; isolation of sibling file systems; interleavings of AddMount beyond the atomic-insert shape.")
+	c.Explain("Structural clauses of C06 decided from source: (R06.1) every strings.HasPrefix test of a name against a stored path (mount keys in mount.mountPoint, record keys in the in-memory store's listing) uses a prefix ending in \"/\" — 'a' never captures 'ab'; (R06.2) in the mount-table scan, every update of the best-so-far pair on the prefix path is guarded by a strict length comparison between the candidate and the current best, so the result does not depend on iteration order, and the exact-match path stores the candidate itself; (R06.3) every MountFS branch of the helpers (and mount.Rename per name) delegates with the file system and sub-path of ONE Mount call and translates the error with (err, name, subPath) of that same call — with the suite's only mount name == subPath, so a mix-up is invisible to the tests; (R06.4) the mount-table insertion is dominated by ValidPath, not-root, a successful open+Stat of the mount point — addressed through the mount point's own route, Mount(p) or Mount(path.Dir(p)) joined with path.Base(p) — and IsDir, and is an atomic LoadOrStore whose 'loaded' result is answered with ErrExist; (R06.5) cross-mount rename: after the destination was created, every failing return removes the destination first, and the source is removed only after the copy succeeded and the destination's Close returned nil; (R06.6) no call of a Mount(name) route resolution in the module passes a string that can never satisfy ValidPath (the directory half of path.Split, a concatenation ending in '/', an invalid constant): such a call always falls on the invalid-name route — the root file system — whatever is mounted; (R06.7) every helper that probes an optional capability interface of its file system also probes MountFS (exempt with reasons: Sub, Symlink, helpers that fall back to fs.Open) — a missing branch makes the operation fail with ErrNotImplemented through a Sub view or another MountFS although the routed file system supports it. (R06.8) the root file system is read only inside the route resolution; (R06.9) the cross-mount copy creates or truncates its destination. (R06.10) no concatenated path is a strings.Trim cutset. NOT claimed: that an operation's effect equals the direct call on the routed file system; isolation of sibling file systems; interleavings of AddMount beyond the atomic-insert shape.")
 	c.Assume("A1: FS contract for mounted file systems", "A2: sync.Map.LoadOrStore is atomic")
 	c.RuleDoc("R06.1", "element-boundary prefix tests")
 	c.RuleDoc("R06.2", "longest match independent of iteration order")
